@@ -284,7 +284,7 @@ func (w *World) GenerateSpecs() error {
 		n := 0
 		emit := func(fc *FuncContract, c *Clause, tag string, si *sigInfo, withResults bool, extra []VarDecl) error {
 			n++
-			base := strings.NewReplacer(".", "_", "$", "_", "(", "", ")", "", "*", "", "/", "_", "-", "_").Replace(fc.Key)
+			base := identOf(fc.Key)
 			name := fmt.Sprintf("spec__%s__%s_%d", base, tag, n)
 			c.SpecFn = name
 			info := &SpecFnInfo{Name: name}
@@ -412,7 +412,7 @@ func (w *World) GenerateSpecs() error {
 					continue
 				}
 				n++
-				base := strings.NewReplacer(".", "_", "$", "_", "(", "", ")", "", "*", "", "/", "_", "-", "_").Replace(fc.Key)
+				base := identOf(fc.Key)
 				ms.SpecFn = fmt.Sprintf("spec__%s__mod_%d", base, n)
 				info := &SpecFnInfo{Name: ms.SpecFn}
 				var ps []string
@@ -479,6 +479,7 @@ func (w *World) GenerateSpecs() error {
 		body.WriteString("func spec_fresh(x interface{}) bool { return x == nil }\n")
 		body.WriteString("func spec_allocated(x interface{}) bool { return x == nil }\n")
 		body.WriteString("func spec_sameref(x, y interface{}) bool { return x == y }\n")
+		body.WriteString("func spec_sameslice(x, y interface{}) bool { return x == nil && y == nil }\n")
 		txt := body.String()
 		var hdr strings.Builder
 		hdr.WriteString("//go:build verif\n\n// Code generated by govc from " + contractFileName + "; overlay only, never written to /repo.\n\npackage " + pkgName + "\n\n")
@@ -726,4 +727,17 @@ func lookupFunc(prog *ssa.Program, sp *ssa.Package, key string) *ssa.Function {
 		fn = fn.AnonFuncs[idx-1]
 	}
 	return fn
+}
+
+
+func identOf(s string) string {
+	var b strings.Builder
+	for _, r := range s {
+		if r >= 'a' && r <= 'z' || r >= 'A' && r <= 'Z' || r >= '0' && r <= '9' {
+			b.WriteRune(r)
+		} else {
+			b.WriteByte('_')
+		}
+	}
+	return b.String()
 }
